@@ -626,3 +626,65 @@ Definition mutated_view (v : bool * list Z * list extn) (m : mutation) : bool * 
   | (be, b, l), MExtClear => (be, b, [])
   | (be, b, l), MExtSet l' => (be, b, l')
   end.
+
+(* ------------------------------------------------------------------ what a written header looks like
+   to the class sniffers (may_contain_header of each header class, used by load): the signature
+   predicates on the header bytes, and the writers: default header, any sequence of named-setter
+   writes, save-time finalisation.  Named setters (set_data_dtype, set_data_shape, set_zooms,
+   set_data_offset, set_slope_inter, set_qform, set_sform, set_intent, set_dim_info, set_xyzt_units,
+   set_slice_*, set_origin_from_affine, descrip / aux_file ..., MGH set_* ) are over-approximated by
+   arbitrary fitting writes to every field they may touch: all fields except sizeof_hdr, magic,
+   eol_check (NIfTI), smin (Analyze / SPM: bytes 344:348) and version (MGH); xform codes are written
+   only with codes of the recoder (set_qform / set_sform look the code up). *)
+Definition NI1 : list Z := [110; 105; 49; 0].
+Definition NP1 : list Z := [110; 43; 49; 0].
+Definition has_magic1 (b : list Z) : bool :=
+  list_eqb (take 4 (drop 344 b)) NI1 || list_eqb (take 4 (drop 344 b)) NP1.
+Definition sz_is (b : list Z) (k : Z) : bool := (dec_s false (take 4 b) =? k) || (dec_s true (take 4 b) =? k).
+(* AnalyzeHeader.guessed_endian on a NIfTI-2 block read natively (little endian) *)
+Definition n2_big_endian (b : list Z) : bool :=
+  let dim0 := dec_s false (take 8 (drop 16 b)) in
+  if dim0 =? 0 then dec_s true (take 4 b) =? 540
+  else if (1 <=? dim0) && (dim0 <=? 7) then false else true.
+Definition in_intervals (c : Z) (iv : list (Z * Z)) : bool :=
+  existsb (fun ab => (fst ab <=? c) && (c <=? snd ab)) iv.
+Definition n2_cifti (b : list Z) : bool :=
+  in_intervals (dec_s (n2_big_endian b) (take 4 (drop 504 b))) cifti_intents.
+
+(* cifti: the header is written by Cifti2Image (a NIfTI-2 header with a CIFTI intent) *)
+Definition signature (c : hclass) (cifti : bool) (b : list Z) : bool :=
+  match c with
+  | Nifti1 | Nifti1Pair => (348 <=? zlen b) && has_magic1 b
+  | Nifti2 | Nifti2Pair => (540 <=? zlen b) && sz_is b 540 && negb (has_magic1 b) && Bool.eqb (n2_cifti b) cifti
+  | Analyze | Spm99 | Spm2 =>
+      (348 <=? zlen b) && sz_is b 348 && negb (has_magic1 b) && negb ((540 <=? zlen b) && sz_is b 540)
+  | Mgh => list_eqb (take 4 b) [0; 0; 0; 1]
+  | Ecat => true
+  end.
+
+Definition protected_fields (c : hclass) : list Z :=
+  match c with
+  | Mgh => [f_version]
+  | Ecat => []
+  | Analyze | Spm99 | Spm2 => [f_sizeof_hdr; f_smin]
+  | _ => [f_sizeof_hdr; f_magic; f_eol_check]
+  end.
+Definition vals_fitb (f : field) (vs : list Z) : bool :=
+  Nat.eqb (length vs) (fcount f) && forallb (fun v => (0 <=? v) && (v <? pow256 (fwidth f))) vs.
+(* a named-setter write of values vs to field i *)
+Definition allowed_write (c : hclass) (w : Z * list Z) : bool :=
+  let (i, vs) := w in
+  negb (memZ i (protected_fields c))
+  && match find_field i (layout_of c) with
+     | Some f => vals_fitb f vs
+                 && (negb ((i =? f_qform_code) || (i =? f_sform_code))
+                     || forallb (fun v => memZ (to_signed (fwidth f) v) (xform_codes_of c)) vs)
+     | None => false
+     end.
+Definition apply_writes (ws : list (Z * list Z)) (h : hdr) : hdr :=
+  fold_left (fun h w => setf (fst w) (snd w) h) ws h.
+(* Nifti1Pair.update_header / Nifti1Image.update_header: magic by single / pair *)
+Definition finalise (c : hclass) (h : hdr) : hdr :=
+  if is_nifti c then setf f_magic (pad_to 4 (if is_single_of c then single_magic_of c else pair_magic_of c)) h else h.
+Definition written (c : hclass) (be : bool) (ws : list (Z * list Z)) : list Z :=
+  encode_struct (layout_of c) (match c with Mgh => true | _ => be end) (finalise c (apply_writes ws (default_hdr c))).
